@@ -365,6 +365,11 @@ func mutate(t *rapid.T, w *world, kind, shape string) mutated {
 		a := w.get("attackerForeign")
 		m.e = pki.Endorse(g, a.cert.Raw, a.rsa())
 	case "cert-from-ambient-system-root":
+		if !ambientLoaded {
+			// the process did not pick the harness CA up as its system store (SSL_CERT_FILE ignored on
+			// this platform?): the kind would silently test nothing; say so in the evidence
+			ev.Class("setup", "inconclusive/ambient-system-root-not-loaded")
+		}
 		a := w.get("ambientLeaf")
 		m.e = pki.Endorse(g, a.cert.Raw, a.rsa())
 	case "pkcs1v15-signature":
